@@ -96,6 +96,11 @@ def is_constant_definition(node: ast.Constant, parent: ast.AST | None) -> bool:
     Returns:
         True if this is a constant definition
     """
+    # An annotated definition (MAX_SIZE: int = 77) is a definition too
+    if isinstance(parent, ast.AnnAssign):
+        target = parent.target
+        return isinstance(target, ast.Name) and _is_constant_name(target.id)
+
     if not _is_assignment_node(parent):
         return False
 
